@@ -203,7 +203,14 @@ def job_loop(family, shape, gemini, batch_size, solver="adam", mlcl=False, timeo
                                                    "how": "parameter entry is an exact constant on this path (see backprop/*/null-row)"})
                         continue
                     ref = -diff.Differ(theta.f[0][0], uf_grad=env.stub.grad_table).drat(S)
-                    o = harness.prove_zero(to_rat(garr[idx]) - ref, pc, timeout_s=timeout_q, name=f"{tag}/step{si}/{pname}{list(idx)}")
+                    try:
+                        dterm = to_rat(garr[idx]) - ref
+                    except Exception as e:      # the code handed the optimiser something that is not a number (e.g. NotImplemented from an in-place ufunc)
+                        dterm = None
+                    if dterm is None:
+                        o = {"name": f"{tag}/step{si}/{pname}{list(idx)}", "verdict": "sat", "how": f"direction entry is not a number: {garr[idx]!r}"[:120], "model": dict(wmodel or {})}
+                    else:
+                        o = harness.prove_zero(dterm, pc, timeout_s=timeout_q, name=f"{tag}/step{si}/{pname}{list(idx)}")
                     if o.get("how", "").startswith("solver"):
                         res["queries"] += 1
                     res["obligations"].append(_strip(o))
@@ -298,6 +305,9 @@ def jobs(tier):
     # is the reversal, so the batches are [2,1],[0] and [3,2],[1,0]: each constrained pair below sits inside one batch)
     out.append({"name": "loop/LinearModel/mlcl/bs2", "target": "checks.c03:job_loop",
                 "kwargs": dict(family="LinearModel", shape=(3, 1, 2), gemini="mi", batch_size=2, mlcl={"ml": [(2, 1)], "cl": [(0, 2)]}), "timeout": 300 if q else 2400})
+    # pairs SPLIT across two batches of one epoch contribute nothing (and an in-batch pair keeps the job non-vacuous)
+    out.append({"name": "loop/LinearModel/mlcl/bs2/n4/cross-batch", "target": "checks.c03:job_loop",
+                "kwargs": dict(family="LinearModel", shape=(4, 1, 2), gemini="mi", batch_size=2, mlcl={"ml": [(3, 2), (3, 0)], "cl": [(2, 1)]}), "timeout": 300 if q else 2400})
     out.append({"name": "loop/LinearModel/mlcl/bs2/n4", "target": "checks.c03:job_loop",
                 "kwargs": dict(family="LinearModel", shape=(4, 1, 2), gemini="mi", batch_size=2, mlcl={"ml": [(3, 2)], "cl": [(1, 0)]}), "timeout": 300 if q else 2400})
     return out
